@@ -4,6 +4,7 @@ import (
 	"fmt"
 	"math"
 	"reflect"
+	"strings"
 
 	"github.com/pion/rtcp"
 )
@@ -15,6 +16,7 @@ type Leaf struct {
 	Kind string // uint | bool | float | string | bytes
 	Bits int    // wire width for uint leaves
 	v    reflect.Value
+	knownXR bool // leaf of the (derived) XRHeader of a defined XR block kind
 }
 
 // widths of fields narrower on the wire than their Go type (well-formed
@@ -36,7 +38,6 @@ var wireBits = map[string]int{
 
 // fields that are structural or derived and therefore not deviated generically
 var skipKeys = map[string]bool{
-	"XRHeader.BlockLength":              true,
 	"TransportLayerCC.PacketStatusCount": true,
 	"Header.Padding":                    true,
 	"Header.Count":                      true,
@@ -69,9 +70,9 @@ func walkLeaves(v reflect.Value, path, key string, out *[]Leaf, inKnownXR bool) 
 		walkLeaves(v.Elem(), path, key, out, inKnownXR)
 	case reflect.Struct:
 		t := v.Type()
-		if t == xrHeaderT && inKnownXR {
-			return
-		}
+		// the XRHeader of the seven defined block kinds is derived: whatever the caller (or an
+		// earlier Marshal / Unmarshal) left in it must be overwritten, so stale values are part of D
+		_ = inKnownXR
 		// a metric block that is not received has no ECN / offset (canonical form)
 		if t.Name() == "CCFeedbackMetricBlock" && !v.FieldByName("Received").Bool() {
 			return
@@ -85,7 +86,7 @@ func walkLeaves(v reflect.Value, path, key string, out *[]Leaf, inKnownXR bool) 
 			if skipKeys[k] {
 				continue
 			}
-			walkLeaves(v.Field(i), path+"."+f.Name, k, out, knownXR[t])
+			walkLeaves(v.Field(i), path+"."+f.Name, k, out, knownXR[t] || (t == xrHeaderT && inKnownXR))
 		}
 	case reflect.Slice:
 		if v.Type().Elem().Kind() == reflect.Uint8 {
@@ -102,7 +103,7 @@ func walkLeaves(v reflect.Value, path, key string, out *[]Leaf, inKnownXR bool) 
 		if w, ok := wireBits[key]; ok {
 			bits = w
 		}
-		*out = append(*out, Leaf{Path: path, Key: key, Kind: "uint", Bits: bits, v: v})
+		*out = append(*out, Leaf{Path: path, Key: key, Kind: "uint", Bits: bits, v: v, knownXR: inKnownXR && strings.HasPrefix(key, "XRHeader.")})
 	case reflect.Bool:
 		*out = append(*out, Leaf{Path: path, Key: key, Kind: "bool", v: v})
 	case reflect.Float32:
@@ -133,7 +134,7 @@ func (l Leaf) alphabet(thorough bool) []uint64 {
 	if l.Key == "SourceDescriptionItem.Type" {
 		lo = 1
 	}
-	if l.Key == "XRHeader.BlockType" { // unknown block kinds only
+	if l.Key == "XRHeader.BlockType" && !l.knownXR { // unknown block kinds keep their type: only unregistered values
 		out := []uint64{0, 8, 9, 127, 128, 254, 255}
 		if thorough {
 			out = out[:0]
